@@ -145,7 +145,8 @@ fn spec(op: &Operator, l: &Value, r: &Value) -> Option<bool> {
             }
         }
         Operator::Contains => Some(strs(l, r).map(|(a, b)| str_contains(&a, &b)).unwrap_or(false)),
-        Operator::NotContains => Some(strs(l, r).map(|(a, b)| !str_contains(&a, &b)).unwrap_or(false)),
+        // `not contains` of a non-string is not fixed by the statement
+        Operator::NotContains => strs(l, r).map(|(a, b)| !str_contains(&a, &b)),
         Operator::StartsWith => Some(strs(l, r).map(|(a, b)| str_starts(&a, &b)).unwrap_or(false)),
         Operator::EndsWith => Some(strs(l, r).map(|(a, b)| str_ends(&a, &b)).unwrap_or(false)),
         Operator::Matches => match strs(l, r) {
@@ -535,13 +536,14 @@ fn main_store() -> Store {
     top.insert("name".to_string(), s("hello"));
     top.insert("flag".to_string(), Value::Boolean(false));
     top.insert("pi".to_string(), f(2.5));
+    top.insert("ver".to_string(), s("10")); // a numeric string: coerced by the ordering operators
     top.insert("F.x".to_string(), i(3)); // flat keys that contain a dot; there is no object F
     top.insert("F.s".to_string(), s("he"));
     Store { top }
 }
-const PRESENT: [&str; 17] = ["A.x", "A.y", "A.n", "A.f", "A.s", "A.b", "A.e", "A.arr", "A.in.q", "A.in.t", "k", "j", "name", "flag", "pi", "F.x", "F.s"];
+const PRESENT: [&str; 18] = ["A.x", "A.y", "A.n", "A.f", "A.s", "A.b", "A.e", "A.arr", "A.in.q", "A.in.t", "k", "j", "name", "flag", "pi", "ver", "F.x", "F.s"];
 const MISSING: [&str; 6] = ["A.zz", "M.x", "m", "A.in.zz", "A.x.y", "F.y"];
-const STORE_DESC: &str = "facts A={x:3,y:2,n:-5,f:2.5,s:\"hello\",b:true,e:\"\",arr:[1,2,\"a\"],in:{q:7,t:\"deep\"}} k=3 j=8 name=\"hello\" flag=false pi=2.5 \"F.x\"=3 \"F.s\"=\"he\" (flat keys)";
+const STORE_DESC: &str = "facts A={x:3,y:2,n:-5,f:2.5,s:\"hello\",b:true,e:\"\",arr:[1,2,\"a\"],in:{q:7,t:\"deep\"}} k=3 j=8 name=\"hello\" flag=false pi=2.5 ver=\"10\" \"F.x\"=3 \"F.s\"=\"he\" (flat keys)";
 
 struct Case {
     desc: String,
@@ -816,7 +818,8 @@ fn c01_rules_compound_inner(progress: &Arc<Mutex<String>>) -> (bool, String) {
     let mut d2 = d1.clone();
     d2.extend(grow(&d1, &d1));
     let mut trees = d2.clone();
-    trees.extend(grow(&d2, &d1)); // depth 3: one side of depth <= 2, the other of depth <= 1
+    trees.extend(grow(&d2, &d0)); // depth 3: one side of depth <= 2, the other a leaf
+    trees.extend(grow(&d2.iter().skip(d1.len()).step_by(12).cloned().collect::<Vec<_>>(), &d1)); // ... or of depth <= 1 (a sample)
     // the same shapes over the second pair of leaves, to depth 2
     let e0 = vec![T::Leaf(2), T::Leaf(3)];
     let mut e1 = e0.clone();
@@ -832,7 +835,7 @@ fn c01_rules_compound_inner(progress: &Arc<Mutex<String>>) -> (bool, String) {
     let n = cases.len();
     match run_cases(&store, cases, progress) {
         Some(bad) => (true, bad),
-        None => (false, format!("{} condition trees over && || ! (all to depth 2, depth 3 with one side of depth <= 1, a depth-6 chain) built with the constructors", n)),
+        None => (false, format!("{} condition trees over && || ! (all to depth 2; depth 3 with one side a leaf, and a sample with one side of depth 1; a depth-6 chain) built with the constructors", n)),
     }
 }
 fn c01_rules_compound() -> (bool, String) {
@@ -880,7 +883,7 @@ fn c01_rules_compound_grl_inner(progress: &Arc<Mutex<String>>) -> (bool, String)
     let mut d2 = d1.clone();
     d2.extend(grow(&d1, &p0));
     let mut trees = d2.clone();
-    trees.extend(grow(&d2[d1.len()..].iter().step_by(3).cloned().collect::<Vec<_>>(), &p0)); // a third of the depth-2 trees, one level deeper
+    trees.extend(grow(&d2[d1.len()..].iter().step_by(5).cloned().collect::<Vec<_>>(), &p0)); // a fifth of the depth-2 trees, one level deeper
     let mut cases: Vec<(String, bool)> = vec![];
     for t in &trees {
         let want = truth(t, &leaf_truth);
@@ -916,16 +919,16 @@ const CMPS: [(&str, Operator); 6] = [
 fn c01_rules_arith_condition_inner(progress: &Arc<Mutex<String>>) -> (bool, String) {
     let store = main_store();
     // (name, value, is integer)
-    let first: [(&str, f64, bool); 6] = [("A.x", 3.0, true), ("A.y", 2.0, true), ("A.n", -5.0, true), ("k", 3.0, true), ("j", 8.0, true), ("A.f", 2.5, false)];
-    let rest: [(&str, f64, bool); 8] = [("A.x", 3.0, true), ("A.y", 2.0, true), ("A.n", -5.0, true), ("k", 3.0, true), ("j", 8.0, true), ("A.f", 2.5, false), ("2", 2.0, true), ("10", 10.0, true)];
-    let rights: [(&str, f64, bool); 7] = [("7", 7.0, true), ("-5", -5.0, true), ("0", 0.0, true), ("6", 6.0, true), ("1", 1.0, true), ("-10", -10.0, true), ("5.5", 5.5, false)];
+    let first: [(&str, f64, bool); 4] = [("A.x", 3.0, true), ("A.n", -5.0, true), ("j", 8.0, true), ("A.f", 2.5, false)];
+    let rest: [(&str, f64, bool); 5] = [("A.y", 2.0, true), ("A.n", -5.0, true), ("k", 3.0, true), ("A.f", 2.5, false), ("2", 2.0, true)];
+    let rights: [(&str, f64, bool); 5] = [("7", 7.0, true), ("-5", -5.0, true), ("0", 0.0, true), ("1", 1.0, true), ("5.5", 5.5, false)];
     let mut grl: Vec<(String, bool)> = vec![];
     let mut cases: Vec<Case> = vec![];
     let mut skipped = 0u64;
     let mut count = 0u64;
     for a in &first {
         for b in &rest {
-            for c in [None, Some(&rest[1]), Some(&rest[2]), Some(&rest[6])] {
+            for c in [None, Some(&rest[0]), Some(&rest[4])] {
                 for o1 in AOPS {
                     for o2 in AOPS {
                         if c.is_none() && o2 != '+' {
@@ -962,8 +965,8 @@ fn c01_rules_arith_condition_inner(progress: &Arc<Mutex<String>>) -> (bool, Stri
                                 };
                                 count += 1;
                                 let text = format!("{} {} {}", left, cname, r.0);
-                                // the GRL route for a sample (every 7th), the parser's representation for all
-                                if count % 7 == 0 {
+                                // the GRL route for a sample (every 37th), the parser's representation for all
+                                if count % 37 == 0 {
                                     grl.push((text.clone(), expect));
                                 }
                                 cases.push(Case { desc: text.clone(), cond: ConditionGroup::single(Condition::with_test(text, vec![])), expect });
@@ -1143,7 +1146,6 @@ fn c01_rules_assignment_inner(progress: &Arc<Mutex<String>>) -> (bool, String) {
             ActionType::Set { field: "c2".into(), value: Value::Expression("A.s".into()) },
             ActionType::Set { field: "c3".into(), value: Value::Expression("A.arr".into()) },
             ActionType::Set { field: "A.b".into(), value: Value::Boolean(false) },
-            ActionType::Set { field: "c4".into(), value: Value::Expression("A.copy + A.s".into()) },
         ],
     ))
     .unwrap();
@@ -1156,15 +1158,14 @@ fn c01_rules_assignment_inner(progress: &Arc<Mutex<String>>) -> (bool, String) {
         ("c2", s("changed")),
         ("c3", Value::Array(vec![i(1), i(2), s("a")])),
         ("A.b", Value::Boolean(false)),
-        ("c4", s("hellochanged")),
     ];
     if res.is_err() {
-        return (true, format!("{}; rule `A.copy = A.s; A.s = \"changed\"; c2 = A.s; c3 = A.arr; A.b = false; c4 = A.copy + A.s`: execute returned {:?}", STORE_DESC, res.err()));
+        return (true, format!("{}; rule `A.copy = A.s; A.s = \"changed\"; c2 = A.s; c3 = A.arr; A.b = false`: execute returned {:?}", STORE_DESC, res.err()));
     }
     for (k, w) in want.iter() {
         let g = facts_read(&facts, k);
         if !same(&g, w) {
-            return (true, format!("{}; rule `A.copy = A.s; A.s = \"changed\"; c2 = A.s; c3 = A.arr; A.b = false; c4 = A.copy + A.s`: {} = {:?}, expected {:?}", STORE_DESC, k, g, w));
+            return (true, format!("{}; rule `A.copy = A.s; A.s = \"changed\"; c2 = A.s; c3 = A.arr; A.b = false`: {} = {:?}, expected {:?}", STORE_DESC, k, g, w));
         }
     }
     // the statement's example through the parser
